@@ -470,6 +470,28 @@ func genM1(r *rand.Rand, p Profile, id string) Case {
 			t.cur = v
 			t.dirty = false
 			obs(r, g, t, false, &ops)
+		case "dvfrom":
+			// load an older version, delete everything above it WITHOUT reloading, go on writing
+			if len(t.versions) < 2 || t.dirty {
+				continue
+			}
+			v0 := t.versions[r.Intn(len(t.versions)-1)]
+			ops = append(ops, []string{"load", i64(v0)}, []string{"dvfrom", i64(v0 + 1)})
+			var keep []int64
+			for _, w := range t.versions {
+				if w <= v0 {
+					keep = append(keep, w)
+				}
+			}
+			t.versions = keep
+			t.cur = v0
+			t.dirty = false
+			ops = append(ops, []string{"set", hx(g.key()), hx(g.value())}, []string{"save"})
+			t.versions = append(t.versions, v0+1)
+			t.cur = v0 + 1
+			muts++
+			obs(r, g, t, false, &ops)
+			continue
 		case "failedopen":
 			// a new tree object whose first LoadVersion fails (no such version) is used for reads of
 			// the retained versions, then replaced by a properly opened one
